@@ -338,7 +338,26 @@ class FV:
                             return out
                 finally:
                     reg._inline_depth -= 1
-        return [([], self.res.resolve(expr, at))]
+        # a compound expression that mentions a local with several definitions: split on that local
+        return self._split_on_locals(expr, at, {}, depth)
+
+    def _split_on_locals(self, expr: ast.AST, at: int, bound: Dict[str, ast.AST], depth: int):
+        if depth <= 4:
+            for sub in own_walk(expr):
+                if isinstance(sub, ast.Name) and isinstance(sub.ctx, ast.Load) and sub.id not in bound:
+                    defs = sorted(self.cfg.reaching()[at].get(sub.id, ()))
+                    if len(defs) > 1 and all(self.cfg.nodes[d].kind == "stmt" and isinstance(self.cfg.nodes[d].ast, ast.Assign) and len(self.cfg.nodes[d].ast.targets) == 1
+                                             and isinstance(self.cfg.nodes[d].ast.targets[0], ast.Name) for d in defs):
+                        out = []
+                        for d in defs:
+                            here = [(r, p) for r, p, br in self.atoms_at(d)]
+                            for conds, val in self.alternatives(self.cfg.nodes[d].ast.value, d, depth + 1):
+                                b2 = dict(bound)
+                                b2[sub.id] = val
+                                for c3, v3 in self._split_on_locals(expr, at, b2, depth + 1):
+                                    out.append((here + conds + c3, v3))
+                        return out
+        return [([], self.res.resolve_with(expr, at, bound))]
 
     def template_arms(self, expr: ast.AST, at: int, depth: int = 0) -> Optional[List[Tuple[ast.AST, int]]]:
         """The string templates an expression can denote: [(JoinedStr | str Constant, node where it is written)].
